@@ -277,6 +277,29 @@ def step (line : String) : String :=
     let ig' := Schema.addUnique (Schema.addRequired ig)
     ",".intercalate (ig'.block.map (·.1)) ++ " | " ++ ",".intercalate ig'.cols ++ " | " ++
       ";".intercalate (ig'.unique.map (",".intercalate ·)) ++ " | " ++ toString (Schema.colRefsOK ig')
+  | ["logsadd", init, adds] =>
+    -- eth.Logs.Add: attach logs (by index) to a transaction already holding `init`
+    let ns (x : String) : List Nat := (splitList x ",").filterMap (·.toNat?)
+    let out := (ns adds).foldl Cache.addLog (ns init)
+    "ok " ++ ",".intercalate (out.map toString)
+  | ["cfgdeps", cfg] =>
+    -- ig = name/table/col,col/ref+ref/ref+ref   ref = integration:column:table  ("~" = empty string)
+    let un (x : String) : String := if x == "~" then "" else x
+    let parseRef (r : String) : Option Deps.Ref :=
+      match r.splitOn ":" with
+      | [i, c, t] => some { integration := un i, column := un c, table := un t }
+      | _ => none
+    let parseIg (e : String) : Option Deps.Ig :=
+      match e.splitOn "/" with
+      | [n, t, cols, ir, br] =>
+        some { name := n, table := t, columns := splitList cols ",",
+               inputRefs := (splitList ir "+").filterMap parseRef, blockRefs := (splitList br "+").filterMap parseRef }
+      | _ => none
+    let igs := (splitList cfg ";").filterMap parseIg
+    if igs.length != (splitList cfg ";").length then "bad-op" else
+    match Deps.validate igs with
+    | none => "reject"
+    | some out => "ok " ++ ";".intercalate (out.map fun (n, d) => n ++ "=" ++ ",".intercalate d)
   | ["loadtasks", fi, di, fs, ds] =>
     let parseRef (r : String) : Option Manager.SrcRef :=
       match r.splitOn ":" with
